@@ -109,6 +109,10 @@ func (c *client) Lint(
 		return err
 	}
 	logRulesConfig(c.logger, config.rulesConfig)
+	if len(config.RuleIDs) == 0 {
+		// No rules are selected. A request without rule IDs would run the default rules.
+		return nil
+	}
 	files, err := descriptor.FileDescriptorsForProtoFileDescriptors(imageToProtoFileDescriptors(image))
 	if err != nil {
 		// If a validated Image results in an error, this is a system error.
@@ -174,6 +178,10 @@ func (c *client) Breaking(
 		return err
 	}
 	logRulesConfig(c.logger, config.rulesConfig)
+	if len(config.RuleIDs) == 0 {
+		// No rules are selected. A request without rule IDs would run the default rules.
+		return nil
+	}
 	fileDescriptors, err := descriptor.FileDescriptorsForProtoFileDescriptors(imageToProtoFileDescriptors(image))
 	if err != nil {
 		// If a validated Image results in an error, this is a system error.
